@@ -77,7 +77,8 @@ CHECKS = {
                      "back at file level after each function. Garbage.tla inserts every unrecognisable fragment of its catalogue at every token boundary of small derivations, with and "
                      "without trailing newline: the run must end in a fatal diagnostic / Error, never OK!. The engine's design (Engine.tla: Registry.run loop, Context.update, "
                      "IsBlockStart history walk, IsBlockEnd, pending scope, single-line control scopes) is model-checked over every well-bracketed event sequence up to the bound "
-                     "(EngineMC.tla: DepthMatches, DepthBack, LinesConserved, WellFormed), and statement traces recorded from the real Registry.run on the repository's sample files "
+                     "(EngineMC.tla: DepthMatches, DepthBack, LinesConserved, WellFormed; its behaviours are replayed statement by statement into the real Registry.run and the scope chain and "
+                     "line counter compared after each), and statement traces recorded from the real Registry.run on the repository's sample files "
                      "and on a corpus sample are validated event by event by TLC (EngineTrace.tla: partition, well-formedness, depth strict; chain / line counters vs Engine!Step soft).",
                 note="observation by wrapping Context.pop_tokens (harness-side); rule-kind equality is a soft check"),
     "C02": dict(ref="§4.2", tech="TLC exploration of Viol.tla (Norm.tla + 62 violation operators, one applied at one site; simulation + exhaustive (operator, site) pairs over small structures) + replay",
